@@ -548,6 +548,90 @@ func init() {
 		if optCount < 10 {
 			return Result{}, fmt.Errorf("only %d read-option literals found", optCount)
 		}
+		// ---- construction sites of tuple readers / caching wrappers in the engines, with the evidence that the
+		// request's consistency preference is handed on in the constructing function ----
+		readerCtors := map[string]bool{
+			"storagewrappers.NewRequestStorageWrapperWithCache": true, "storagewrappers.NewRequestStorageWrapper": true,
+			"storagewrappers.NewCachedTupleReader": true, "storagewrappers.NewCachedDatastore": true,
+			"sharediterator.NewSharedIteratorDatastore": true, "storagewrappers.NewCombinedTupleReader": true,
+			"storagewrappers.NewBoundedTupleReader": true, "pipeline.NewValidatingStore": true,
+		}
+		consistencyOpt := regexp.MustCompile(`^([A-Za-z0-9_]+\.)?With[A-Za-z]*Consistency[A-Za-z]*$`)
+		engineFile := func(rel string) bool {
+			return (strings.HasPrefix(rel, "pkg/server/") || strings.HasPrefix(rel, "internal/")) &&
+				!strings.HasPrefix(rel, "pkg/server/test/")
+		}
+		type ev3 struct{ kind, carrier, expr string }
+		var readerRows, readerSummary, handoffRows []string
+		for _, pf := range files {
+			if !engineFile(pf.rel) {
+				continue
+			}
+			for _, d := range pf.f.Decls {
+				fd, ok := d.(*ast.FuncDecl)
+				if !ok || fd.Body == nil {
+					continue
+				}
+				recv, _ := csRecvName(fd)
+				fid := pf.pkg + ":" + fd.Name.Name
+				if recv != "" {
+					fid = pf.pkg + ":" + recv + "." + fd.Name.Name
+				}
+				// consistency evidence of the whole function, in source order
+				var evs []ev3
+				type site struct {
+					callee string
+					own    []ev3
+				}
+				var sitesHere []site
+				ast.Inspect(fd.Body, func(n ast.Node) bool {
+					switch x := n.(type) {
+					case *ast.CompositeLit:
+						if x.Type == nil {
+							return true
+						}
+						tn := src(pf.fset, x.Type)
+						if strings.HasPrefix(tn, "storage.") {
+							return true // read-option literals: table readOptions
+						}
+						for _, el := range x.Elts {
+							if kv, ok := el.(*ast.KeyValueExpr); ok && src(pf.fset, kv.Key) == "Consistency" {
+								evs = append(evs, ev3{"lit", tn, src(pf.fset, kv.Value)})
+							}
+						}
+					case *ast.CallExpr:
+						fn := src(pf.fset, x.Fun)
+						if consistencyOpt.MatchString(fn) && len(x.Args) == 1 {
+							evs = append(evs, ev3{"opt", fn, src(pf.fset, x.Args[0])})
+						}
+						if readerCtors[fn] {
+							st := site{callee: fn}
+							for _, a := range x.Args {
+								if ce, ok := a.(*ast.CallExpr); ok && consistencyOpt.MatchString(src(pf.fset, ce.Fun)) && len(ce.Args) == 1 {
+									st.own = append(st.own, ev3{"arg", src(pf.fset, ce.Fun), src(pf.fset, ce.Args[0])})
+								}
+							}
+							sitesHere = append(sitesHere, st)
+						}
+					}
+					return true
+				})
+				for _, e := range evs {
+					handoffRows = append(handoffRows, fmt.Sprintf("(%s, %s, %s, %s, %s)", leanStr(pf.rel), leanStr(fid), leanStr(e.kind), leanStr(e.carrier), leanStr(e.expr)))
+				}
+				for _, st := range sitesHere {
+					var parts []string
+					for _, e := range append(append([]ev3(nil), st.own...), evs...) {
+						parts = append(parts, fmt.Sprintf("(%s, %s, %s)", leanStr(e.kind), leanStr(e.carrier), leanStr(e.expr)))
+					}
+					readerRows = append(readerRows, fmt.Sprintf("(%s, %s, %s, [%s])", leanStr(pf.rel), leanStr(fid), leanStr(st.callee), strings.Join(parts, ", ")))
+					readerSummary = append(readerSummary, fid+" "+st.callee)
+				}
+			}
+		}
+		if len(readerRows) < 6 || len(handoffRows) < 10 {
+			return Result{}, fmt.Errorf("only %d reader construction sites / %d consistency hand-offs found: the scanner no longer matches the source", len(readerRows), len(handoffRows))
+		}
 		// ---- the wrapper order of the request storage wrapper ----
 		fsetQ, fQ, err := parseFile(repo, "pkg/storage/storagewrappers/request.go")
 		if err != nil {
@@ -626,8 +710,15 @@ func init() {
 		sb.WriteString("def readOptions : List (String × String × String) := [\n  " + strings.Join(optRows, ",\n  ") + "\n]\n\n")
 		sb.WriteString("/-- NewRequestStorageWrapperWithCache: the wrappers in construction order (innermost first) -/\n")
 		sb.WriteString("def wrapperOrder : List String := " + leanStrList(wrappers) + "\n\n")
+		sb.WriteString("/-- every construction of a tuple reader / caching wrapper in the engines (pkg/server, internal): (file, function, constructor,\n")
+		sb.WriteString("evidence) — evidence = (kind, carrier, expression): `arg` = a With…Consistency option among the constructor's own arguments,\n")
+		sb.WriteString("`lit` = a `Consistency:` field of a composite literal, `opt` = a With…Consistency call, both anywhere in the same function -/\n")
+		sb.WriteString("def readerSites : List (String × String × String × List (String × String × String)) := [\n  " + strings.Join(readerRows, ",\n  ") + "\n]\n\n")
+		sb.WriteString("/-- every hand-off of a consistency preference in the engines: (file, function, kind, carrier, expression); `opt` = a With…Consistency call -/\n")
+		sb.WriteString("def consistencyHandoffs : List (String × String × String × String × String) := [\n  " + strings.Join(handoffRows, ",\n  ") + "\n]\n\n")
 		sb.WriteString("end OpenFGAVerif.Gen.CacheSites\n")
 		return Result{Lean: sb.String(), Summary: map[string]interface{}{"sites": siteSummary, "edges": len(edges), "triggers": len(triggers),
-			"readOptions": optCount, "wrapperOrder": wrappers, "filesScanned": len(files)}}, nil
+			"readOptions": optCount, "wrapperOrder": wrappers, "filesScanned": len(files),
+			"readerSites": readerSummary, "consistencyHandoffs": len(handoffRows)}}, nil
 	})
 }
